@@ -221,3 +221,37 @@ Definition buf_content (s : pstate) (b : nat) : list N :=
   | Some bf => concat (map (fun p => p_data (get_page s p)) (b_pages bf))
   | None => []
   end.
+
+(* ------------------------------------------------------------------ pageBuffer.WriteAt *)
+(* page.WriteAt inside the bytes the page holds: copy(p.buffer[o:], b) *)
+Definition overwrite (d : list N) (o : nat) (b : list N) : list N :=
+  firstn o d ++ b ++ skipn (o + length b) d.
+
+(* contiguousPages.WriteAt over the buffer's pages [l], [off] counted from the start of the
+   first page of [l]: every page the range touches takes the bytes that fall into it
+   (n = copy(...); b = b[n:]; off += n), the pages before it are skipped. *)
+Fixpoint pages_write_at (ps : list page) (l : list nat) (off : nat) (data : list N) {struct l} : list page :=
+  match l with
+  | [] => ps
+  | p :: t =>
+    let pg := nth p ps page0 in
+    let len := length (p_data pg) in
+    if len <=? off then pages_write_at ps t (off - len) data
+    else
+      let n := Nat.min (len - off) (length data) in
+      pages_write_at
+        (upd ps p {| p_refc := p_refc pg; p_data := overwrite (p_data pg) off (firstn n data); p_pool := p_pool pg |})
+        t 0 (skipn n data)
+  end.
+
+(* pb.WriteAt(data, off) for a range inside the bytes the buffer already holds (the
+   back-patching of placeholders; a range reaching beyond the end is not modelled: None) *)
+Definition pb_write_at (s : pstate) (b : nat) (off : nat) (data : list N) : option pstate :=
+  match nth_error (s_bufs s) b with
+  | Some bf =>
+    if negb (b_live bf) then None
+    else if length (buf_content s b) <? off + length data then None
+    else Some {| s_pages := pages_write_at (s_pages s) (b_pages bf) off data;
+                 s_bufs := s_bufs s; s_refs := s_refs s |}
+  | None => None
+  end.
